@@ -59,17 +59,12 @@ impl Sink {
 #[verifier::external_body]
 fn str_has_non_alnum(s: &str) -> (b: bool) { unimplemented!() }
 
-// ---- fault-free output of each writer method (RFC 6690 link-format syntax) ----
-pub open spec fn esc(c: char) -> Seq<char> { if c == '"' || c == '\\' { seq!['\\', c] } else { seq![c] } }
+// ---- fault-free output of each writer method: NOT fixed here.  C18 does not say what the writer writes, only
+// that it stops at the first failure; the texts out_link / out_key / out_quoted / esc are generated from the
+// write calls found in the code (units/lfw.py: derive_blocks), so a change of syntax alone is not a C18 matter.
 pub open spec fn esc_all(s: Seq<char>) -> Seq<char>
     decreases s.len()
 { if s.len() == 0 { Seq::empty() } else { esc_all(s.drop_last()) + esc(s.last()) } }
-pub open spec fn out_link(is_first: bool, newlines: bool, link: Seq<char>) -> Seq<char> {
-    (if is_first { Seq::<char>::empty() } else if newlines { seq![',', '\n', '\r'] } else { seq![','] }) + seq!['<'] + link + seq!['>']
-}
-pub open spec fn out_key(key: Seq<char>) -> Seq<char> { seq![';'] + key + seq!['='] }
-pub open spec fn out_quoted(key: Seq<char>, value: Seq<char>) -> Seq<char> { out_key(key) + seq!['"'] + esc_all(value) + seq!['"'] }
-
 // the writer's step relation: `out` is what the method writes when nothing fails
 pub open spec fn step(pre: Sink, pre_err: bool, post: Sink, post_err: bool, out: Seq<char>) -> bool {
     &&& is_prefix(pre.text@, post.text@)
@@ -183,6 +178,42 @@ def top_level_ifs(u, src, bo, bc):
     return out
 
 
+WRITE_RX = re.compile(r'\.write\s*\.(write_char|write_str|write_display_str|write_display_u32)\(((?:[^()]|\([^()]*\))*)\)')
+GUARD_RX = re.compile(r'(?:self|this)(?:\.0)?\.error\.is_none\(\)')
+
+
+def chunk_of(call, arg):
+    arg = arg.strip()
+    return {'write_char': 'seq![%s]', 'write_str': '(%s)@', 'write_display_str': '(%s)@', 'write_display_u32': 'dec_digits(%s)'}[call] % arg
+
+
+def derive_blocks(u, fnref, region=None, skip=0):
+    """C18 does not fix WHAT the writer writes, only that it stops at the first failure.  The fault-free
+    text of a method is therefore taken from the code itself: for each statement-level guarded write
+    `if [COND &&] error.is_none() { error = sink.write_x(ARG).err(); }` the chunk is ARG's text and the
+    extra condition COND (e.g. `c == '"' || c == '\\\\'`) says when it belongs to the fault-free output."""
+    s, p, bo, bc = u._fn_span(fnref)
+    if region == 'loop':
+        m = re.search(r'(?<![A-Za-z0-9_])for(?![A-Za-z0-9_])', s.code[bo:bc])
+        lbo = s.body_open(bo + m.start())
+        bo, bc = lbo, s.match_close(lbo)
+    out = []
+    for a, b in top_level_ifs(u, s, bo, bc)[skip:]:
+        hb = s.body_open(a)
+        header = u.text[a + 2:hb]
+        body = u.text[hb:b]
+        ws = WRITE_RX.findall(body)
+        if len(ws) == 0:
+            out.append(('Seq::<char>::empty()', 'false'))
+            continue
+        if len(ws) != 1:
+            raise ExtractError('unit lfw: block in %s has %d sink writes, expected 1' % (fnref, len(ws)))
+        cond = GUARD_RX.sub('true', header).strip()
+        cond = re.sub(r'\s+', ' ', cond)
+        out.append((chunk_of(*ws[0]), '(%s)' % cond))
+    return out
+
+
 def annotate_blocks(u, fnref, W, specs, region=None):
     """For the k-th statement-level `if` of the function body (or of the first `for` loop body
     when region='loop'), take a ghost snapshot before it and call lemma_block after it with the
@@ -237,6 +268,7 @@ def build_variant(repo, with_step):
            "pub struct LinkAttributeWrite<'a, 'b>(pub &'b mut LinkFormatWrite<'a>);", 1)
     u.rule('R14:attr-impl', r"impl<T: Write \+ \?Sized> LinkAttributeWrite<'_, '_, T> \{", "impl LinkAttributeWrite<'_, '_> {", 1)
     u.rule('derive-drop:Debug', r'#\[derive\(Debug\)\]\n', '', 2)
+    u.rule('R8:pub-consts', r'(?m)^const (QUOTE_ESCAPE_CHAR|ATTR_SEPARATOR_CHAR|LINK_SEPARATOR_CHAR)', r'pub const \1', 3)
     # ---- R15 / R16 / R17
     u.rule('R15:write!-str', r'write!\(self\.write, "\{\}", link\)', 'self.write.write_display_str(link)', 1)
     u.rule('R15:write!-u32', r'write!\(self\.0\.write, "\{\}", value\)', 'self.0.write.write_display_u32(value)', 1)
@@ -245,6 +277,45 @@ def build_variant(repo, with_step):
     for fn in ['attr', 'attr_u32', 'attr_quoted']:
         desugar_mut_self(u, (LAW, fn))
 
+    if with_step:
+        # ---- the fault-free texts, read off the code ---------------------------------------------------
+        EMPTY = 'Seq::<char>::empty()'
+
+        def opt(chunk, cond):
+            return chunk if cond == '(true)' else '(if %s { %s } else { %s })' % (cond, chunk, EMPTY)
+        s0, p0, bo0, bc0 = u._fn_span((LFW, 'link'))
+        first_if = top_level_ifs(u, s0, bo0, bc0)[0]
+        sep = WRITE_RX.findall(u.text[first_if[0]:first_if[1]])
+        if len(sep) != 2:
+            raise ExtractError('unit lfw: the separator block of link() has %d sink writes, expected 2' % len(sep))
+        C1, C2 = chunk_of(*sep[0]), chunk_of(*sep[1])
+        link_rest = derive_blocks(u, (LFW, 'link'), skip=1)
+        key_blocks = derive_blocks(u, (LAW, 'internal_attr_key_eq'))
+        u32_blocks = derive_blocks(u, (LAW, 'attr_u32'))
+        attr_blocks = derive_blocks(u, (LAW, 'attr'))
+        q_blocks = derive_blocks(u, (LAW, 'attr_quoted'))
+        q_loop = derive_blocks(u, (LAW, 'attr_quoted'), region='loop')
+        if len(link_rest) != 3 or len(key_blocks) != 3 or len(u32_blocks) != 1 or len(attr_blocks) != 2 or len(q_blocks) != 2 or len(q_loop) != 2:
+            raise ExtractError('unit lfw: unexpected number of guarded writes in the writer methods')
+        sq, pq, boq, bcq = u._fn_span((LAW, 'attr_quoted'))
+        cvar = re.search(r'for\s+(\w+)\s+in\s', sq.code[boq:bcq]).group(1)
+        gen_spec = '''
+    // ---- generated from the write calls of link_format.rs (see derive_blocks) ----
+    pub open spec fn out_link(is_first: bool, newlines: bool, link: &str) -> Seq<char> {
+        (if is_first { %(E)s } else { %(C1)s + (if newlines { %(C2)s } else { %(E)s }) }) + %(L1)s + %(L2)s + %(L3)s
+    }
+    pub open spec fn out_key(key: &str) -> Seq<char> { %(K1)s + %(K2)s + %(K3)s }
+    pub open spec fn esc(%(c)s: char) -> Seq<char> { %(ESC)s + %(CH)s }
+    pub open spec fn out_quoted(key: &str, value: &str) -> Seq<char> { out_key(key) + %(Q1)s + esc_all(value@) + %(Q2)s }
+    pub open spec fn out_plain(key: &str, value: &str) -> Seq<char> { out_key(key) + %(P)s }
+    pub open spec fn out_u32(key: &str, value: u32) -> Seq<char> { out_key(key) + %(U)s }
+    ''' % {'P': opt(*attr_blocks[1]), 'U': opt(*u32_blocks[0]), 'E': EMPTY, 'C1': C1, 'C2': C2, 'L1': opt(*link_rest[0]), 'L2': opt(*link_rest[1]), 'L3': opt(*link_rest[2]),
+           'K1': opt(*key_blocks[0]), 'K2': opt(*key_blocks[1]), 'K3': opt(*key_blocks[2]), 'c': cvar,
+           'ESC': opt(*q_loop[0]), 'CH': opt(*q_loop[1]), 'Q1': opt(*q_blocks[0]), 'Q2': opt(*q_blocks[1])}
+        gen_spec = re.sub(r'\b(self|this)\.(0\.)?', '', gen_spec)
+        marker = '// <<< code'
+        i0 = u.text.index(marker)
+        u.text = u.text[:i0] + gen_spec + u.text[i0:]
     # ---- invariant and contracts ------------------------------------------------------------
     u.body_start_impl = None
     u.text = u.text.replace("impl<'a> LinkFormatWrite<'a> {", """impl<'a> LinkFormatWrite<'a> {
@@ -258,16 +329,16 @@ def build_variant(repo, with_step):
     u.contract((LFW, 'link'), '''        requires old(self).inv()
         ensures r.0.inv(), !r.0.is_first, r.0.add_newlines == old(self).add_newlines,
             old(self).err() ==> r.0.err(),
-            step(*old(self).write, old(self).err(), *r.0.write, r.0.err(), out_link(old(self).is_first, old(self).add_newlines, link@))''', props=PROPS)
+            step(*old(self).write, old(self).err(), *r.0.write, r.0.err(), out_link(old(self).is_first, old(self).add_newlines, link))''', props=PROPS)
     u.contract((LFW, 'finish'), '''        requires self.inv()
         ensures old(self.write).failed@ ==> r is Err, (r is Err) == self.err()''', props=PROPS)
     u.contract((LAW, 'internal_attr_key_eq'), '''        requires old(self).0.inv()
         ensures final(self).0.inv(), final(self).0.is_first == old(self).0.is_first, final(self).0.add_newlines == old(self).0.add_newlines,
             old(self).0.err() ==> final(self).0.err(),
-            step(*old(self).0.write, old(self).0.err(), *final(self).0.write, final(self).0.err(), out_key(key@))''', props=PROPS)
-    for fn, out in [('attr', 'step(*self.0.write, self.0.err(), *r.0.write, r.0.err(), out_quoted(key@, value@)) || step(*self.0.write, self.0.err(), *r.0.write, r.0.err(), out_key(key@) + value@)'), ('attr_u32', 'step(*self.0.write, self.0.err(), *r.0.write, r.0.err(), out_key(key@) + dec_digits(value))'),
-                    ('attr_u16', 'step(*self.0.write, self.0.err(), *r.0.write, r.0.err(), out_key(key@) + dec_digits(value as u32))'),
-                    ('attr_quoted', 'step(*self.0.write, self.0.err(), *r.0.write, r.0.err(), out_quoted(key@, value@))')]:
+            step(*old(self).0.write, old(self).0.err(), *final(self).0.write, final(self).0.err(), out_key(key))''', props=PROPS)
+    for fn, out in [('attr', 'step(*self.0.write, self.0.err(), *r.0.write, r.0.err(), out_quoted(key, value)) || step(*self.0.write, self.0.err(), *r.0.write, r.0.err(), out_plain(key, value))'), ('attr_u32', 'step(*self.0.write, self.0.err(), *r.0.write, r.0.err(), out_u32(key, value))'),
+                    ('attr_u16', 'step(*self.0.write, self.0.err(), *r.0.write, r.0.err(), out_u32(key, value as u32))'),
+                    ('attr_quoted', 'step(*self.0.write, self.0.err(), *r.0.write, r.0.err(), out_quoted(key, value))')]:
         u.contract((LAW, fn), '''        requires self.0.inv()
         ensures r.0.inv(), r.0.is_first == old(self.0).is_first, r.0.add_newlines == old(self.0).add_newlines, old(self.0).err() ==> r.0.err(),
             %s''' % out.replace('*self.0.write', '*old(self.0).write').replace('self.0.err()', 'old(self.0).err()'), props=PROPS)
@@ -288,18 +359,15 @@ def build_variant(repo, with_step):
         proof { lemma_prefix_refl(g_pre.0.text@); assert(g_pre.0.text@ + g_exp =~= g_pre.0.text@); }''' % (W, W))
     # link(): block 0 is the separator (two writes inside), blocks 1..3 are '<', link, '>'
     entry((LFW, 'link'), 'self')
-    annotate_blocks(u, (LFW, 'link'), 'self', [
-        ("(if g_pre_newlines { seq![',', '\\n', '\\r'] } else { seq![','] })", '!g_pre_first'),
-        ("seq!['<']", 'true'), ('link@', 'true'), ("seq!['>']", 'true')])
+    GC1 = re.sub(r'\b(self|this)\.(0\.)?', '', C1)
+    GC2 = re.sub(r'\b(self|this)\.(0\.)?', '', C2)
+    annotate_blocks(u, (LFW, 'link'), 'self', [('(if g_pre_newlines { %s + %s } else { %s })' % (GC1, GC2, GC1), '!g_pre_first')] + link_rest)
     u.body_start((LFW, 'link'), '        let ghost g_pre_first = self.is_first; let ghost g_pre_newlines = self.add_newlines;')
     # inside block 0: the newline write comes after the ',' write
     u.before((LFW, 'link'), r'if self\.add_newlines', '''                let ghost mid: (Sink, bool) = (*self.write, self.error is Some);''')
-    u.after((LFW, 'link'), r'self\.error = self\.write\.write_str\("\\n\\r"\)\.err\(\);\s*\}', '''                proof {
-                    let c1 = seq![',']; let c2 = seq!['\\n', '\\r'];
+    u.at_block_end((LFW, 'link'), r'else if self\.error\.is_none\(\)', '''                proof {
+                    let c1 = %s; let c2 = %s;
                     let t0 = snap0.0.text@; let t1 = mid.0.text@; let t2 = self.write.text@;
-                    reveal_strlit("\\n\\r");
-                    assert("\\n\\r"@ =~= c2);
-                    assert(c1 + c2 =~= seq![',', '\\n', '\\r']);
                     assert(t0 + (c1 + c2) =~= (t0 + c1) + c2);
                     if g_pre_newlines && !mid.1 {
                         assert(t1 == t0 + c1);
@@ -307,63 +375,63 @@ def build_variant(repo, with_step):
                     } else if g_pre_newlines {
                         lemma_prefix_ext(t2, t0 + c1, c2);
                     }
-                    let chunk = if g_pre_newlines { seq![',', '\\n', '\\r'] } else { seq![','] };
+                    let chunk = if g_pre_newlines { c1 + c2 } else { c1 };
                     assert(is_prefix(t0, t2));
                     if !g_pre_newlines { assert(t2 == t1); assert(is_prefix(t2, t0 + chunk)); }
                     else if !mid.1 { assert(is_prefix(t2, t1 + c2)); assert(t1 + c2 == t0 + chunk); assert(is_prefix(t2, t0 + chunk)); }
                     else { assert(t2 == t1); assert(is_prefix(t2, (t0 + c1) + c2)); assert(is_prefix(t2, t0 + chunk)); }
-                    assert(is_prefix(t2, t0 + chunk));
                     assert(!self.write.failed@ ==> t2 == t0 + chunk);
                     assert((self.error is Some) == self.write.failed@);
                     assert(self.write.after_fail@ == snap0.0.after_fail@);
-                }''')
+                }''' % (GC1, GC2))
     u.body_end((LFW, 'link'), '')
-    u.before((LFW, 'link'), r'LinkAttributeWrite\(self\)', '''        proof { assert(g_exp =~= out_link(g_pre_first, g_pre_newlines, link@)); }''')
+    u.before((LFW, 'link'), r'LinkAttributeWrite\(self\)', '''        proof { assert(g_exp =~= out_link(g_pre_first, g_pre_newlines, link)); }''')
     # internal_attr_key_eq: ';' key '='
     entry((LAW, 'internal_attr_key_eq'), 'self.0')
-    annotate_blocks(u, (LAW, 'internal_attr_key_eq'), 'self.0', [("seq![';']", 'true'), ('key@', 'true'), ("seq!['=']", 'true')])
-    u.body_end((LAW, 'internal_attr_key_eq'), '''        proof { assert(g_exp =~= out_key(key@)); }''')
+    annotate_blocks(u, (LAW, 'internal_attr_key_eq'), 'self.0', key_blocks)
+    u.body_end((LAW, 'internal_attr_key_eq'), '''        proof { assert(g_exp =~= out_key(key)); }''')
     # attr_u32: key_eq, then the number
     def after_key_eq(fnref):
-        u.after(fnref, r'this\.internal_attr_key_eq\(key\);', '        proof { g_exp = out_key(key@); }')
+        u.after(fnref, r'this\.internal_attr_key_eq\(key\);', '        proof { g_exp = out_key(key); }')
     entry((LAW, 'attr_u32'), 'self.0')
     after_key_eq((LAW, 'attr_u32'))
-    annotate_blocks(u, (LAW, 'attr_u32'), 'this.0', [('dec_digits(value)', 'true')])
+    annotate_blocks(u, (LAW, 'attr_u32'), 'this.0', u32_blocks)
     # attr: either delegated to attr_quoted, or key_eq and the bare value
     entry((LAW, 'attr'), 'self.0')
     after_key_eq((LAW, 'attr'))
     s_, p_, bo_, bc_ = u._fn_span((LAW, 'attr'))
-    annotate_blocks(u, (LAW, 'attr'), 'this.0', [('Seq::<char>::empty()', 'false'), ('value@', 'true')])
+    annotate_blocks(u, (LAW, 'attr'), 'this.0', attr_blocks)
     # attr_quoted: key_eq, '"', escaped characters, '"'
     entry((LAW, 'attr_quoted'), 'self.0')
     after_key_eq((LAW, 'attr_quoted'))
-    annotate_blocks(u, (LAW, 'attr_quoted'), 'this.0', [("seq!['\"']", 'true'), ("seq!['\"']", 'true')])
-    annotate_blocks(u, (LAW, 'attr_quoted'), 'this.0', [("seq!['\\\\']", "(c == '\"' || c == '\\\\')"), ('seq![c]', 'true')], region='loop')
+    annotate_blocks(u, (LAW, 'attr_quoted'), 'this.0', q_blocks)
+    annotate_blocks(u, (LAW, 'attr_quoted'), 'this.0', q_loop, region='loop')
+    Q1 = opt(*q_blocks[0])
     u.loop((LAW, 'attr_quoted'), 0, '''            invariant
                 this.0.inv(), this.0.is_first == g_first, this.0.add_newlines == g_newlines,
                 it.seq() == value@,
                 step(g_pre.0, g_pre.1, *this.0.write, this.0.error is Some, g_exp),
-                g_exp == out_key(key@) + seq!['"'] + esc_all(value@.take(it.index() as int)),''', iter_name='it')
+                g_exp == out_key(key) + %s + esc_all(value@.take(it.index() as int)),''' % Q1, iter_name='it')
     u.body_start((LAW, 'attr_quoted'), '        let ghost g_first = self.0.is_first; let ghost g_newlines = self.0.add_newlines;')
     s_, p_, bo_, bc_ = u._fn_span((LAW, 'attr_quoted'))
-    u.before((LAW, 'attr_quoted'), r'for c in it: value\.chars\(\)', '''        proof {
+    u.before((LAW, 'attr_quoted'), r'for \w+ in it: value\.chars\(\)', '''        proof {
             assert(value@.take(0) =~= Seq::<char>::empty());
-            assert(g_exp =~= out_key(key@) + seq!['"'] + esc_all(value@.take(0)));
-        }''')
+            assert(g_exp =~= out_key(key) + %s + esc_all(value@.take(0)));
+        }''' % Q1)
     # end of the loop body: one more character has been emitted (escaped)
-    u.after((LAW, 'attr_quoted'), r'this\.0\.error = this\.0\.write\.write_char\(c\)\.err\(\);\s*\}\s*proof \{[^\n]*\}', '''            proof {
+    u.at_block_end((LAW, 'attr_quoted'), r'for %s in it:' % cvar, '''            proof {
                 let i = it.index() as int;
                 assert(value@.take(i + 1).drop_last() =~= value@.take(i));
-                assert(value@.take(i + 1).last() == c);
-                assert(esc_all(value@.take(i + 1)) == esc_all(value@.take(i)) + esc(c));
-                assert(g_exp =~= out_key(key@) + seq!['"'] + esc_all(value@.take(i + 1)));
-            }''')
+                assert(value@.take(i + 1).last() == %s);
+                assert(esc_all(value@.take(i + 1)) == esc_all(value@.take(i)) + esc(%s));
+                assert(g_exp =~= out_key(key) + %s + esc_all(value@.take(i + 1)));
+            }''' % (cvar, cvar, Q1))
     u.before((LAW, 'attr_quoted'), r'let ghost snap1', '''        proof {
             assert(value@.take(value@.len() as int) =~= value@);
-            assert(g_exp == out_key(key@) + seq!['"'] + esc_all(value@));
-        }''', nth=1, count=2)
+            assert(g_exp == out_key(key) + %s + esc_all(value@));
+        }''' % Q1, nth=1, count=2)
     u.replace_in((LAW, 'attr_quoted'), 'final-hint', r'\n(\s*)this\s*\}$', r'''
-\1proof { assert(g_exp =~= out_quoted(key@, value@)); }
+\1proof { assert(g_exp =~= out_quoted(key, value)); }
 \1this
     }''')
     u.probe('lemma_step_compose')
